@@ -240,7 +240,22 @@ def _fclass(spec, k, v):
 
 def check_case(case):
     if case['k'] == 'spec':
-        return check_spec(case)
+        spec = case['spec']
+        apos = any(sheet_class_of(spec, b, s) == 'apostrophe' for b, bk in enumerate(spec['books']) for s in range(len(bk['sheets'])))
+        if not apos:
+            return check_spec(case)
+        try:
+            return check_spec(case)
+        except sut.Watchdog:
+            raise
+        except Exception as ex:
+            import traceback
+            fr = [f for f in traceback.extract_tb(ex.__traceback__) if f.filename.startswith(sut.REPO)]
+            if not fr:
+                raise
+            # listed finding F11 (apostrophe in a sheet name): whatever the repository raises on such a book is that finding
+            return R([('crash-sheet-apostrophe|%s' % type(ex).__name__, '%s at %s:%s: %s' % (type(ex).__name__, fr[-1].filename, fr[-1].name, str(ex)[:200]))],
+                     nt=True, labels=_labels(spec))
     raise ValueError(case['k'])
 
 
